@@ -81,6 +81,8 @@ Start ==
   /\ pc' = "normalise" /\ ds' = ToDS
   /\ UNCHANGED <<nlocs, order, vf, shapes, masters>>
 Next == AddMaster \/ Start \/ (BuildStep /\ UNCHANGED <<shapes, masters>>)
+(* generation only (inputs for the replay against the real code): stop after Normalise *)
+NextGen == AddMaster \/ Start \/ (Normalise /\ UNCHANGED <<shapes, masters>>)
 
 (* ---- what is checked ---------------------------------------------------------------------------- *)
 (* each designspace is exported when its build starts; refusals are exported too *)
@@ -96,7 +98,7 @@ InvNormalised == pc \in {"model", "items", "assemble", "done"} =>
   \A i \in 1..Len(ds.srcs) : \E m \in masters : nlocs[i] = TLCEval([a \in 1..N |-> Rat(m[1][a], D)])
                                                    /\ ds.srcs[i].vals[1] = RInt(m[2])
 (* Build's map semantics = AxisMap.tla's (module of C19) at every probe of every axis *)
-InvAxisMapModule == pc = "normalise" =>
+InvAxisMapModule == (pc = "normalise" /\ Len(ds.srcs) = 1) =>
   \A a \in 1..N : \A u \in Probes(ds.axes[a]) : AM!Fwd(ds.axes[a].map, u) = MapFwd(ds.axes[a], u)
 (* without the rounding step the masters are reproduced exactly (so 1/2 is all rounding) *)
 InvExactWithoutRounding == Built =>
